@@ -1,6 +1,855 @@
-//! C08 — not implemented yet.
-use mc_core::Ctx;
+//! C08 — protected calls succeed exactly when the access rule is satisfied.
+//!
+//! Bounded-exhaustive enumeration of (access rule, proof placement, entry point) triples, executed as real
+//! transactions, compared with a small reference evaluator of the documented semantics (DESIGN A.1).
+//!
+//! Sections
+//!  1. `role:tx-zone`     every rule × every subset of {G×1, G×5, N#1, N{#1,#2}, signature S} in the transaction auth
+//!                        zone, through the role-protected method `guarded` of component C (role "r" := rule);
+//!  2. `assert:tx-zone`   the same through `assert_access_rule` executed by a Probe function;
+//!  3. `owner-fallback`, `role-list`, `function`: representative rules through a method whose role is unassigned
+//!                        (owner rule := rule), a method protected by the role list [r, s] (s = DenyAll), and a
+//!                        package function protected by function auth;
+//!  4. `chain`            representative rules × proofs in the transaction zone (T) and/or in the zone of an
+//!                        intermediate component K1 (Q) × call paths (direct; via global K1; via K1 then global K2 —
+//!                        barrier; via K1's owned child object) × {method of C, assert in the last frame};
+//!  5. `caller`           global_caller / package_of_direct_caller rules × the caller relations.
+//!
+//! Reference: zones form a forest; a call creates a zone whose parent is the caller's zone iff the call stays in
+//! the same global context, and whose "global caller zone" is the caller's zone on a global context change
+//! (copied otherwise). A permission is evaluated against: the callee zone's local implicit badges (global caller,
+//! package of direct caller), the global caller zone and its parent chain, the callee zone's parent chain — never
+//! the callee's own proofs. Require(resource) needs a proof of the resource; Require(non-fungible) a proof
+//! containing the id or an implicit badge; AmountOf a *single* proof with at least the amount; AllOf/AnyOf/CountOf
+//! count matching entries.
+use crate::probe::*;
+use mc_core::{par_for, Ctx, Level, Local};
+use mc_ledger::*;
+use radix_engine_interface::object_modules::role_assignment::*;
+use serde_json::{json, Map};
+use std::collections::BTreeSet;
 
-pub fn run(_ctx: Ctx) -> ! {
-    mc_core::machinery_error("C08: not implemented")
+// ------------------------------------------------------------------------------------------------
+// reference model
+// ------------------------------------------------------------------------------------------------
+
+#[derive(Clone, Debug, PartialEq, Eq)]
+struct ProofM {
+    res: ResourceAddress,
+    amount: Decimal,
+    ids: BTreeSet<NonFungibleLocalId>,
+}
+
+#[derive(Clone, Debug, Default)]
+struct Vis {
+    proofs: Vec<ProofM>,
+    implicit: BTreeSet<NonFungibleGlobalId>,
+}
+
+fn atom_ok(v: &Vis, x: &ResourceOrNonFungible) -> bool {
+    match x {
+        ResourceOrNonFungible::Resource(r) => v.proofs.iter().any(|p| p.res == *r),
+        ResourceOrNonFungible::NonFungible(g) => {
+            v.implicit.contains(g) || v.proofs.iter().any(|p| p.res == g.resource_address() && p.ids.contains(g.local_id()))
+        }
+    }
+}
+
+/// `summed`: the alternative reading of AmountOf (sum over all visible proofs) — used only to detect the
+/// statement-silent cases.
+fn basic_ok(v: &Vis, b: &BasicRequirement, summed: bool) -> bool {
+    match b {
+        BasicRequirement::Require(x) => atom_ok(v, x),
+        BasicRequirement::AmountOf(a, r) => {
+            if summed {
+                let mut sum = Decimal::ZERO;
+                let mut any = false;
+                for p in v.proofs.iter().filter(|p| p.res == *r) {
+                    sum = sum.checked_add(p.amount).unwrap();
+                    any = true;
+                }
+                any && sum >= *a
+            } else {
+                v.proofs.iter().any(|p| p.res == *r && p.amount >= *a)
+            }
+        }
+        BasicRequirement::AllOf(l) => l.iter().all(|x| atom_ok(v, x)),
+        BasicRequirement::AnyOf(l) => l.iter().any(|x| atom_ok(v, x)),
+        BasicRequirement::CountOf(c, l) => l.iter().filter(|x| atom_ok(v, x)).count() >= *c as usize,
+    }
+}
+
+fn composite_ok(v: &Vis, c: &CompositeRequirement, summed: bool) -> bool {
+    match c {
+        CompositeRequirement::BasicRequirement(b) => basic_ok(v, b, summed),
+        CompositeRequirement::AnyOf(l) => l.iter().any(|x| composite_ok(v, x, summed)),
+        CompositeRequirement::AllOf(l) => l.iter().all(|x| composite_ok(v, x, summed)),
+    }
+}
+
+fn rule_ok(v: &Vis, r: &AccessRule, summed: bool) -> bool {
+    match r {
+        AccessRule::AllowAll => true,
+        AccessRule::DenyAll => false,
+        AccessRule::Protected(c) => composite_ok(v, c, summed),
+    }
+}
+
+/// zone forest of one call path (index 0 = the transaction processor's zone)
+#[derive(Clone, Debug, Default)]
+struct ZoneM {
+    proofs: Vec<ProofM>,
+    /// signature badges (root zone only)
+    implicit: BTreeSet<NonFungibleGlobalId>,
+    local_implicit: BTreeSet<NonFungibleGlobalId>,
+    parent: Option<usize>,
+    gc_zone: Option<usize>,
+    /// the global-caller badge this zone carries (copied to same-context callees)
+    gc_badge: Option<NonFungibleGlobalId>,
+}
+
+#[derive(Clone, Debug)]
+struct CallerM {
+    /// badge of the caller's global ancestor (component address) or blueprint (function)
+    global_badge: NonFungibleGlobalId,
+    package: PackageAddress,
+}
+
+struct Zones(Vec<ZoneM>);
+
+impl Zones {
+    /// a call from the frame owning zone `from` made by `caller`; returns the callee's zone
+    fn call(&mut self, from: usize, caller: &CallerM, global_context_change: bool) -> usize {
+        let (parent, gc_zone, gc_badge) = if global_context_change {
+            (None, Some(from), Some(caller.global_badge.clone()))
+        } else {
+            (Some(from), self.0[from].gc_zone, self.0[from].gc_badge.clone())
+        };
+        let mut local = BTreeSet::new();
+        if let Some(b) = &gc_badge {
+            local.insert(b.clone());
+        }
+        local.insert(NonFungibleGlobalId::package_of_direct_caller_badge(caller.package));
+        self.0.push(ZoneM { proofs: vec![], implicit: BTreeSet::new(), local_implicit: local, parent, gc_zone, gc_badge });
+        self.0.len() - 1
+    }
+    fn chain(&self, mut z: Option<usize>, v: &mut Vis) {
+        while let Some(i) = z {
+            v.proofs.extend(self.0[i].proofs.iter().cloned());
+            v.implicit.extend(self.0[i].implicit.iter().cloned());
+            z = self.0[i].parent;
+        }
+    }
+    /// what a permission check of the frame owning zone `z` sees
+    fn visible(&self, z: usize) -> Vis {
+        let mut v = Vis::default();
+        v.implicit.extend(self.0[z].local_implicit.iter().cloned());
+        self.chain(self.0[z].gc_zone, &mut v);
+        self.chain(self.0[z].parent, &mut v);
+        v
+    }
+}
+
+// ------------------------------------------------------------------------------------------------
+// world
+// ------------------------------------------------------------------------------------------------
+
+#[derive(Clone, Copy, Debug, PartialEq, Eq, PartialOrd, Ord)]
+enum Atom {
+    G1,
+    G5,
+    Nf1,
+    Nf12,
+    Sig,
+}
+const ATOMS: [Atom; 5] = [Atom::G1, Atom::G5, Atom::Nf1, Atom::Nf12, Atom::Sig];
+
+struct W08 {
+    snap: Snap,
+    acct: ComponentAddress,
+    g: ResourceAddress,
+    nf: ResourceAddress,
+    sig_s: NonFungibleGlobalId,
+    sig_t: NonFungibleGlobalId,
+    pkg_p: PackageAddress,
+    pkg_q: PackageAddress,
+    c: ComponentAddress,
+    k1: ComponentAddress,
+    k2: ComponentAddress,
+    /// packages whose `ProbeF::guarded_fn` is protected by rep rule i
+    fn_pkgs: Vec<PackageAddress>,
+}
+
+fn nfid(i: u64) -> NonFungibleLocalId {
+    NonFungibleLocalId::integer(i)
+}
+
+fn mb(w_acct: ComponentAddress) -> ManifestBuilder {
+    ManifestBuilder::new().lock_fee(w_acct, 50)
+}
+
+fn build_world(rep_rules_for_functions: &dyn Fn(&W08) -> Vec<AccessRule>) -> W08 {
+    let (mut sim, _probe) = new_probe_sim();
+    let acct = sim.new_account_advanced(OwnerRole::Fixed(AccessRule::AllowAll));
+    for _ in 0..3 {
+        sim.load_account_from_faucet(acct);
+    }
+    let (pk_s, _) = sim.new_key_pair();
+    let (pk_t, _) = sim.new_key_pair();
+    let g = sim.create_freely_mintable_and_burnable_fungible_resource(OwnerRole::None, Some(dec!(100)), 0, acct);
+    let nf = sim.create_freely_mintable_and_burnable_non_fungible_resource(
+        OwnerRole::None,
+        NonFungibleIdType::Integer,
+        Some(vec![
+            (nfid(1), NfData { name: "one".into(), level: 1 }),
+            (nfid(2), NfData { name: "two".into(), level: 2 }),
+            (nfid(3), NfData { name: "three".into(), level: 3 }),
+        ]),
+        acct,
+    );
+    let pkg_p = sim.publish_native_package(PROBE_P, package_p());
+    let pkg_q = sim.publish_native_package(PROBE_Q, package_q());
+    let new_component = |sim: &mut PSim, pkg: PackageAddress, bp: &str, pre: Vec<Op>, cfg: GlobalizeCfg| -> ComponentAddress {
+        let mut ops = vec![Op::NewObject { bp: bp.to_string(), lock0: false }];
+        ops.extend(pre);
+        ops.push(Op::Globalize { node: N::Reg(0), reservation: None, cfg });
+        let m = ManifestBuilder::new().lock_fee_from_faucet().call_function(pkg, bp, "run", manifest_args!(script_bytes(&ops))).build();
+        sim.execute_manifest(m, vec![]).expect_commit_success().new_component_addresses()[0]
+    };
+    // C: the protected target. r is (re)assigned per rule (its updater is AllowAll); s = DenyAll; t unassigned;
+    // the owner rule is (re)assigned by the component's own code (updater = Object).
+    let mut cfg_c = GlobalizeCfg::simple(OwnerRole::Updatable(AccessRule::DenyAll));
+    cfg_c.owner_updater_object = true;
+    cfg_c.main_roles = vec![
+        ("r".into(), Some(AccessRule::AllowAll)),
+        ("r_updater".into(), Some(AccessRule::AllowAll)),
+        ("s".into(), Some(AccessRule::DenyAll)),
+    ];
+    let c = new_component(&mut sim, pkg_p, BP_A, vec![], cfg_c);
+    // K1: an intermediate global component (package P) owning a child object (blueprint ProbeB) in field 0
+    let pre_k1 = vec![
+        Op::NewObject { bp: BP_B.to_string(), lock0: false },
+        Op::CallProbeMethod {
+            recv: N::Reg(0),
+            method: "call".into(),
+            script: vec![Op::OpenField { obj: 0, idx: 0, mutable: true }, Op::FieldWrite(0, Val::Own(N::Arg(0))), Op::FieldClose(0)],
+            pass: vec![Pass::Own(N::Reg(1))],
+        },
+    ];
+    let k1 = new_component(&mut sim, pkg_p, BP_A, pre_k1, GlobalizeCfg::simple(OwnerRole::None));
+    // K2: a second intermediate global component, other package
+    let k2 = new_component(&mut sim, pkg_q, BP_X, vec![], GlobalizeCfg::simple(OwnerRole::None));
+    let mut w = W08 {
+        snap: sim.create_snapshot(),
+        acct,
+        g,
+        nf,
+        sig_s: NonFungibleGlobalId::from_public_key(&pk_s),
+        sig_t: NonFungibleGlobalId::from_public_key(&pk_t),
+        pkg_p,
+        pkg_q,
+        c,
+        k1,
+        k2,
+        fn_pkgs: vec![],
+    };
+    for rule in rep_rules_for_functions(&w) {
+        w.fn_pkgs.push(sim.publish_native_package(PROBE_P, package_with_function_rule(rule)));
+    }
+    w.snap = sim.create_snapshot();
+    w
+}
+
+// ------------------------------------------------------------------------------------------------
+// rule alphabet
+// ------------------------------------------------------------------------------------------------
+
+struct Alphabet {
+    /// all basic requirements
+    basics: Vec<BasicRequirement>,
+    /// representative basics (spanning the kinds), used for composites / secondary entry points
+    reps: Vec<BasicRequirement>,
+}
+
+fn alphabet(w: &W08) -> Alphabet {
+    use ResourceOrNonFungible as X;
+    let rg = X::Resource(w.g);
+    let rn = X::Resource(w.nf);
+    let n = |i: u64| X::NonFungible(NonFungibleGlobalId::new(w.nf, nfid(i)));
+    let s = X::NonFungible(w.sig_s.clone());
+    let t = X::NonFungible(w.sig_t.clone());
+    let mut basics = vec![];
+    for x in [rg.clone(), rn.clone(), n(1), n(2), n(3), s.clone(), t.clone()] {
+        basics.push(BasicRequirement::Require(x));
+    }
+    for a in [1u32, 2, 5, 6] {
+        basics.push(BasicRequirement::AmountOf(Decimal::from(a), w.g));
+    }
+    for a in [1u32, 2, 3] {
+        basics.push(BasicRequirement::AmountOf(Decimal::from(a), w.nf));
+    }
+    // lists over 5 entries (n(3) is never provable)
+    let entries = [rg.clone(), n(1), n(2), s.clone(), n(3)];
+    for i in 0..entries.len() {
+        basics.push(BasicRequirement::AllOf(vec![entries[i].clone()]));
+        basics.push(BasicRequirement::AnyOf(vec![entries[i].clone()]));
+        for j in 0..entries.len() {
+            if i != j {
+                basics.push(BasicRequirement::AllOf(vec![entries[i].clone(), entries[j].clone()]));
+                basics.push(BasicRequirement::AnyOf(vec![entries[i].clone(), entries[j].clone()]));
+            }
+        }
+    }
+    // count-of over lists of 2–3 distinct entries, both orders, counts 0..=3
+    for i in 0..entries.len() {
+        for j in (i + 1)..entries.len() {
+            let mut lists = vec![vec![entries[i].clone(), entries[j].clone()]];
+            for k in (j + 1)..entries.len() {
+                lists.push(vec![entries[i].clone(), entries[j].clone(), entries[k].clone()]);
+            }
+            for l in lists {
+                let mut rev = l.clone();
+                rev.reverse();
+                for c in 0..=3u8 {
+                    basics.push(BasicRequirement::CountOf(c, l.clone()));
+                    basics.push(BasicRequirement::CountOf(c, rev.clone()));
+                }
+            }
+        }
+    }
+    let reps = vec![
+        BasicRequirement::Require(rg.clone()),
+        BasicRequirement::Require(n(1)),
+        BasicRequirement::Require(n(2)),
+        BasicRequirement::Require(s.clone()),
+        BasicRequirement::Require(n(3)),
+        BasicRequirement::AmountOf(dec!(5), w.g),
+        BasicRequirement::AmountOf(dec!(2), w.nf),
+        BasicRequirement::AllOf(vec![rg.clone(), s.clone()]),
+        BasicRequirement::AnyOf(vec![n(2), n(3)]),
+        BasicRequirement::CountOf(2, vec![rg.clone(), n(2), s.clone()]),
+        BasicRequirement::CountOf(2, vec![n(3), n(1), n(2)]),
+        BasicRequirement::CountOf(3, vec![rg.clone(), n(1), s.clone()]),
+    ];
+    Alphabet { basics, reps }
+}
+
+fn b(x: &BasicRequirement) -> CompositeRequirement {
+    CompositeRequirement::BasicRequirement(x.clone())
+}
+
+/// all rules of the primary sections
+fn rules(a: &Alphabet, quick: bool) -> Vec<AccessRule> {
+    let mut out = vec![AccessRule::AllowAll, AccessRule::DenyAll];
+    for x in &a.basics {
+        out.push(AccessRule::Protected(b(x)));
+    }
+    let any = |l: Vec<CompositeRequirement>| CompositeRequirement::AnyOf(l);
+    let all = |l: Vec<CompositeRequirement>| CompositeRequirement::AllOf(l);
+    // depth 1: one or two children over the representatives (quick) / over representatives × all basics (thorough)
+    let d1: Vec<&BasicRequirement> = a.reps.iter().collect();
+    let d1_second: Vec<&BasicRequirement> = if quick { a.reps.iter().collect() } else { a.basics.iter().step_by(3).collect() };
+    for x in &d1 {
+        out.push(AccessRule::Protected(any(vec![b(x)])));
+        out.push(AccessRule::Protected(all(vec![b(x)])));
+        for y in &d1_second {
+            if x != y {
+                out.push(AccessRule::Protected(any(vec![b(x), b(y)])));
+                out.push(AccessRule::Protected(all(vec![b(x), b(y)])));
+                if !quick {
+                    out.push(AccessRule::Protected(any(vec![b(y), b(x)])));
+                    out.push(AccessRule::Protected(all(vec![b(y), b(x)])));
+                }
+            }
+        }
+    }
+    // depth 2: op1([op2([x, y]), z]) and op1([z, op2([x, y])])
+    let d2: Vec<&BasicRequirement> = if quick { a.reps.iter().take(5).collect() } else { a.reps.iter().take(9).collect() };
+    for x in &d2 {
+        for y in &d2 {
+            if x == y {
+                continue;
+            }
+            for z in &d2 {
+                for inner_any in [true, false] {
+                    let inner = if inner_any { any(vec![b(x), b(y)]) } else { all(vec![b(x), b(y)]) };
+                    out.push(AccessRule::Protected(any(vec![inner.clone(), b(z)])));
+                    out.push(AccessRule::Protected(all(vec![inner.clone(), b(z)])));
+                    out.push(AccessRule::Protected(any(vec![b(z), inner.clone()])));
+                    out.push(AccessRule::Protected(all(vec![b(z), inner.clone()])));
+                }
+            }
+        }
+    }
+    out
+}
+
+/// representative rules for the secondary entry points and the chain section
+fn rep_rules(a: &Alphabet) -> Vec<AccessRule> {
+    let mut out = vec![AccessRule::AllowAll, AccessRule::DenyAll];
+    for x in &a.reps {
+        out.push(AccessRule::Protected(b(x)));
+    }
+    let r = &a.reps;
+    out.push(AccessRule::Protected(CompositeRequirement::AnyOf(vec![b(&r[1]), b(&r[2])])));
+    out.push(AccessRule::Protected(CompositeRequirement::AllOf(vec![b(&r[0]), b(&r[2])])));
+    out.push(AccessRule::Protected(CompositeRequirement::AllOf(vec![b(&r[3]), CompositeRequirement::AnyOf(vec![b(&r[2]), b(&r[5])])])));
+    out.push(AccessRule::Protected(CompositeRequirement::AnyOf(vec![b(&r[4]), CompositeRequirement::AllOf(vec![b(&r[1]), b(&r[2])])])));
+    out
+}
+
+// ------------------------------------------------------------------------------------------------
+// execution
+// ------------------------------------------------------------------------------------------------
+
+fn proof_of(w: &W08, a: Atom) -> Option<ProofM> {
+    let ids = |l: &[u64]| l.iter().map(|i| nfid(*i)).collect::<BTreeSet<_>>();
+    match a {
+        Atom::G1 => Some(ProofM { res: w.g, amount: dec!(1), ids: BTreeSet::new() }),
+        Atom::G5 => Some(ProofM { res: w.g, amount: dec!(5), ids: BTreeSet::new() }),
+        Atom::Nf1 => Some(ProofM { res: w.nf, amount: dec!(1), ids: ids(&[1]) }),
+        Atom::Nf12 => Some(ProofM { res: w.nf, amount: dec!(2), ids: ids(&[1, 2]) }),
+        Atom::Sig => None,
+    }
+}
+
+/// manifest prefix: fee + the proofs of `atoms` pushed to the transaction auth zone
+fn with_tx_proofs(w: &W08, atoms: &[Atom]) -> ManifestBuilder {
+    let mut m = mb(w.acct);
+    for a in atoms {
+        m = match a {
+            Atom::G1 => m.create_proof_from_account_of_amount(w.acct, w.g, dec!(1)),
+            Atom::G5 => m.create_proof_from_account_of_amount(w.acct, w.g, dec!(5)),
+            Atom::Nf1 => m.create_proof_from_account_of_non_fungibles(w.acct, w.nf, [nfid(1)]),
+            Atom::Nf12 => m.create_proof_from_account_of_non_fungibles(w.acct, w.nf, [nfid(1), nfid(2)]),
+            Atom::Sig => m,
+        };
+    }
+    m
+}
+
+fn tx_zone(w: &W08, atoms: &[Atom]) -> ZoneM {
+    let mut z = ZoneM::default();
+    for a in atoms {
+        match proof_of(w, *a) {
+            Some(p) => z.proofs.push(p),
+            None => {
+                z.implicit.insert(w.sig_s.clone());
+            }
+        }
+    }
+    z
+}
+
+fn signers(w: &W08, atoms: &[Atom]) -> Vec<NonFungibleGlobalId> {
+    if atoms.contains(&Atom::Sig) {
+        vec![w.sig_s.clone()]
+    } else {
+        vec![]
+    }
+}
+
+fn tx_processor_caller() -> CallerM {
+    CallerM {
+        global_badge: NonFungibleGlobalId::global_caller_badge(GlobalCaller::PackageBlueprint(BlueprintId::new(&TRANSACTION_PROCESSOR_PACKAGE, TRANSACTION_PROCESSOR_BLUEPRINT))),
+        package: TRANSACTION_PROCESSOR_PACKAGE,
+    }
+}
+
+#[derive(Clone, Copy, Debug, PartialEq, Eq)]
+enum Outcome {
+    Authorized,
+    /// AuthError::Unauthorized for the protected callee / AssertAccessRuleFailed for the assertion
+    Denied,
+}
+
+fn classify(receipt: &TransactionReceipt, assert_entry: bool) -> Result<Outcome, String> {
+    if is_success(receipt) {
+        return Ok(Outcome::Authorized);
+    }
+    let t = failure_text(receipt);
+    if is_commit_failure(receipt) {
+        if assert_entry && t.contains("AssertAccessRuleFailed") {
+            return Ok(Outcome::Denied);
+        }
+        if !assert_entry && t.contains("AuthError(Unauthorized(") && (t.contains("ident: \"guarded") || t.contains("ident: \"guarded_fn\"")) {
+            return Ok(Outcome::Denied);
+        }
+    }
+    Err(mc_core::truncate(&format!("{}: {t}", receipt_class(receipt)), 300))
+}
+
+fn judge(l: &mut Local, section: &str, rule: &AccessRule, vis: &Vis, got: Result<Outcome, String>, case: impl Fn() -> serde_json::Value) {
+    l.eval();
+    let per_proof = rule_ok(vis, rule, false);
+    let summed = rule_ok(vis, rule, true);
+    let got = match got {
+        Ok(g) => g,
+        Err(other) => {
+            // neither success nor the authorization failure of the entry point: harness trouble, reported after the sweep
+            l.class(&format!("{section}:other-failure"));
+            l.info(&format!("other-failure:{}", mc_core::truncate(&other, 160)));
+            return;
+        }
+    };
+    if per_proof != summed {
+        // AmountOf reachable only by adding up several proofs: the statement is silent
+        l.info(&format!("{section}:amount-only-by-sum:{got:?}"));
+        l.class(&format!("{section}:not-judged"));
+        return;
+    }
+    let trivial = !matches!(rule, AccessRule::Protected(_));
+    match (per_proof, got) {
+        (true, Outcome::Authorized) => l.class(&format!("{section}:authorized{}", if trivial { "(trivial)" } else { "" })),
+        (false, Outcome::Denied) => l.class(&format!("{section}:denied{}", if trivial { "(trivial)" } else { "" })),
+        (true, Outcome::Denied) => l.violation(format!("{section}:denied-but-satisfied:{}", rule_kind(rule)), format!("rule {rule:?} is satisfied by the visible proofs but the call was refused"), case()),
+        (false, Outcome::Authorized) => l.violation(format!("{section}:authorized-but-unsatisfied:{}", rule_kind(rule)), format!("rule {rule:?} is not satisfied by the visible proofs but the call was authorized"), case()),
+    }
+    l.sample(|| {
+        let mut c = case();
+        c["expected_authorized"] = json!(per_proof);
+        c
+    });
+}
+
+fn rule_kind(r: &AccessRule) -> String {
+    fn bk(b: &BasicRequirement) -> &'static str {
+        match b {
+            BasicRequirement::Require(_) => "require",
+            BasicRequirement::AmountOf(..) => "amount-of",
+            BasicRequirement::CountOf(..) => "count-of",
+            BasicRequirement::AllOf(_) => "all-of",
+            BasicRequirement::AnyOf(_) => "any-of",
+        }
+    }
+    fn ck(c: &CompositeRequirement, depth: usize) -> String {
+        match c {
+            CompositeRequirement::BasicRequirement(b) => bk(b).to_string(),
+            CompositeRequirement::AnyOf(l) => format!("any[{}]", if depth > 1 { "…".to_string() } else { l.iter().map(|x| ck(x, depth + 1)).collect::<Vec<_>>().join(",") }),
+            CompositeRequirement::AllOf(l) => format!("all[{}]", if depth > 1 { "…".to_string() } else { l.iter().map(|x| ck(x, depth + 1)).collect::<Vec<_>>().join(",") }),
+        }
+    }
+    match r {
+        AccessRule::AllowAll => "allow-all".into(),
+        AccessRule::DenyAll => "deny-all".into(),
+        AccessRule::Protected(c) => ck(c, 0),
+    }
+}
+
+fn subsets<T: Copy>(items: &[T]) -> Vec<Vec<T>> {
+    (0..(1u32 << items.len())).map(|m| items.iter().enumerate().filter(|(i, _)| m & (1 << i) != 0).map(|(_, x)| *x).collect()).collect()
+}
+
+fn run_tx(sim: &mut PSim, probe: &Probe, m: TransactionManifestV1, proofs: Vec<NonFungibleGlobalId>) -> Result<TransactionReceipt, String> {
+    probe.take_log();
+    exec(sim, m, proofs)
+}
+
+fn must_commit(sim: &mut PSim, probe: &Probe, m: TransactionManifestV1, what: &str) {
+    match run_tx(sim, probe, m, vec![]) {
+        Ok(r) if is_success(&r) => {}
+        Ok(r) => mc_core::machinery_error(&format!("C08 setup transaction '{what}' failed: {}", failure_text(&r))),
+        Err(p) => mc_core::machinery_error(&format!("C08 setup transaction '{what}' panicked: {p}")),
+    }
+}
+
+fn set_role_r(w: &W08, sim: &mut PSim, probe: &Probe, rule: &AccessRule) {
+    must_commit(sim, probe, mb(w.acct).set_role(w.c, ModuleId::Main, "r", rule.clone()).build(), "set role r");
+}
+
+fn set_owner_rule(w: &W08, sim: &mut PSim, probe: &Probe, rule: &AccessRule) {
+    let args = scrypto_encode(&RoleAssignmentSetOwnerInput { rule: rule.clone() }).unwrap();
+    let ops = [Op::CallRaw { recv: N::Actor(2), module: Some(AttachedModuleId::RoleAssignment), method: ROLE_ASSIGNMENT_SET_OWNER_IDENT.into(), args }];
+    must_commit(sim, probe, mb(w.acct).call_method(w.c, "call", manifest_args!(script_bytes(&ops))).build(), "set owner rule through the component's own code");
+}
+
+#[derive(Clone, Copy, Debug, PartialEq, Eq)]
+enum Entry {
+    Role,
+    Assert,
+    OwnerFallback,
+    RoleList,
+    Function,
+}
+
+#[derive(Clone, Copy, Debug, PartialEq, Eq)]
+enum Path {
+    /// manifest → check
+    Direct,
+    /// manifest → function ProbeA::run → check
+    ViaFn,
+    /// manifest → K1 (global) → check
+    ViaK1,
+    /// manifest → K1 → K2 (global, other package) → check
+    ViaK1K2,
+    /// manifest → K1 → child object owned by K1 → check
+    ViaK1Child,
+}
+
+#[derive(Clone, Debug)]
+enum Work {
+    /// sections 1–3: one rule, all tx-zone placements, one entry point
+    TxZone { entry: Entry, rule: usize, fn_pkg: Option<usize> },
+    /// section 4/5: one rule (index into the given list), all (path, check, T, Q) combinations
+    Chain { rule: usize, caller_section: bool },
+}
+
+#[derive(Clone, Copy, Debug, PartialEq, Eq, PartialOrd, Ord)]
+enum QAtom {
+    G5,
+    Nf2,
+}
+
+/// script of the last frame: either assert the rule or call C.guarded
+fn final_ops(w: &W08, rule: &AccessRule, assert: bool, c_arg: N) -> Vec<Op> {
+    if assert {
+        vec![Op::AssertRule(rule.clone())]
+    } else {
+        let _ = w;
+        vec![Op::CallProbeMethod { recv: c_arg, method: "guarded".into(), script: vec![], pass: vec![] }]
+    }
+}
+
+/// Build the manifest + the reference zones for a chain scenario. Node arguments of K1: [C, K2, (bucket G)?, (bucket Nf)?].
+fn chain_case(w: &W08, rule: &AccessRule, path: Path, assert: bool, t: &[Atom], q: &[QAtom]) -> (TransactionManifestV1, Vis) {
+    // ---------- reference
+    let mut zones = Zones(vec![tx_zone(w, t)]);
+    let txp = tx_processor_caller();
+    let k1_caller = CallerM { global_badge: NonFungibleGlobalId::global_caller_badge(GlobalCaller::GlobalObject(w.k1.into())), package: w.pkg_p };
+    let k2_caller = CallerM { global_badge: NonFungibleGlobalId::global_caller_badge(GlobalCaller::GlobalObject(w.k2.into())), package: w.pkg_q };
+    let fn_caller = CallerM { global_badge: NonFungibleGlobalId::global_caller_badge(GlobalCaller::PackageBlueprint(BlueprintId::new(&w.pkg_p, BP_A))), package: w.pkg_p };
+    let q_proofs: Vec<ProofM> = q
+        .iter()
+        .map(|a| match a {
+            QAtom::G5 => ProofM { res: w.g, amount: dec!(5), ids: BTreeSet::new() },
+            QAtom::Nf2 => ProofM { res: w.nf, amount: dec!(1), ids: [nfid(2)].into_iter().collect() },
+        })
+        .collect();
+    // (zone of the last frame, the caller description of the last frame)
+    let (last_zone, last_caller) = match path {
+        Path::Direct => (0, txp.clone()),
+        Path::ViaFn => (zones.call(0, &txp, true), fn_caller.clone()),
+        Path::ViaK1 | Path::ViaK1K2 | Path::ViaK1Child => {
+            let z1 = zones.call(0, &txp, true);
+            zones.0[z1].proofs = q_proofs.clone();
+            match path {
+                Path::ViaK1 => (z1, k1_caller.clone()),
+                Path::ViaK1K2 => (zones.call(z1, &k1_caller, true), k2_caller.clone()),
+                // the child is an owned object of K1: same global context; its global ancestor is K1, its package P
+                _ => (zones.call(z1, &k1_caller, false), k1_caller.clone()),
+            }
+        }
+    };
+    let vis = if assert {
+        if path == Path::Direct {
+            // no frame to assert in: the Direct path asserts inside a function frame; handled by ViaFn
+            Vis::default()
+        } else {
+            zones.visible(last_zone)
+        }
+    } else {
+        let zc = zones.call(last_zone, &last_caller, true);
+        zones.visible(zc)
+    };
+
+    // ---------- manifest
+    let mut m = with_tx_proofs(w, t);
+    let manifest = match path {
+        Path::Direct => m.call_method(w.c, "guarded", manifest_args!(script_bytes(&[]))).build(),
+        Path::ViaFn => {
+            let ops = final_ops(w, rule, assert, N::Arg(0));
+            m.call_function(w.pkg_p, BP_A, "run", manifest_args!(script_bytes(&ops), w.c)).build()
+        }
+        _ => {
+            // K1 script: push Q proofs, then continue along the path
+            let mut k1_ops: Vec<Op> = vec![];
+            let mut bucket_args: Vec<&str> = vec![];
+            let mut next_arg = 2u8; // Arg(0) = C, Arg(1) = K2
+            for a in q {
+                match a {
+                    QAtom::G5 => {
+                        m = m.withdraw_from_account(w.acct, w.g, dec!(5)).take_all_from_worktop(w.g, "bg");
+                        bucket_args.push("bg");
+                    }
+                    QAtom::Nf2 => {
+                        m = m.withdraw_non_fungibles_from_account(w.acct, w.nf, [nfid(2)]).take_all_from_worktop(w.nf, "bn");
+                        bucket_args.push("bn");
+                    }
+                }
+                k1_ops.push(Op::CallRawReturningNode { recv: N::Arg(next_arg), method: "create_proof_of_all".into(), args: scrypto_encode(&()).unwrap() });
+                let reg = (k1_ops.iter().filter(|o| matches!(o, Op::CallRawReturningNode { .. })).count() - 1) as u8;
+                k1_ops.push(Op::CallRawWithNode { recv: N::Actor(8), method: "push".into(), node: Pass::Own(N::Reg(reg)) });
+                next_arg += 1;
+            }
+            let nregs = q.len() as u8;
+            match path {
+                Path::ViaK1 => k1_ops.extend(final_ops(w, rule, assert, N::Arg(0))),
+                Path::ViaK1K2 => k1_ops.push(Op::CallProbeMethod { recv: N::Arg(1), method: "call".into(), script: final_ops(w, rule, assert, N::Arg(0)), pass: vec![Pass::Ref(N::Arg(0))] }),
+                _ => {
+                    k1_ops.push(Op::OpenField { obj: 0, idx: 0, mutable: false });
+                    k1_ops.push(Op::FieldReadOwn(0));
+                    k1_ops.push(Op::CallProbeMethod { recv: N::Reg(nregs), method: "call".into(), script: final_ops(w, rule, assert, N::Arg(0)), pass: vec![Pass::Ref(N::Arg(0))] });
+                    k1_ops.push(Op::FieldClose(0));
+                }
+            }
+            // give the buckets back (their proofs are dropped first)
+            k1_ops.push(Op::CallRaw { recv: N::Actor(8), module: None, method: "drop_proofs".into(), args: scrypto_encode(&()).unwrap() });
+            k1_ops.push(Op::Return((0..q.len() as u8).map(|i| N::Arg(2 + i)).collect()));
+            let bytes = script_bytes(&k1_ops);
+            let (c, k2, k1) = (w.c, w.k2, w.k1);
+            let m = m.with_name_lookup(|b, lookup| match bucket_args.len() {
+                0 => b.call_method(k1, "call", manifest_args!(bytes, c, k2)),
+                1 => b.call_method(k1, "call", manifest_args!(bytes, c, k2, lookup.bucket(bucket_args[0]))),
+                _ => b.call_method(k1, "call", manifest_args!(bytes, c, k2, lookup.bucket(bucket_args[0]), lookup.bucket(bucket_args[1]))),
+            });
+            m.deposit_entire_worktop(w.acct).build()
+        }
+    };
+    (manifest, vis)
+}
+
+fn caller_rules(w: &W08) -> Vec<AccessRule> {
+    let gc = |c: GlobalCaller| AccessRule::Protected(CompositeRequirement::BasicRequirement(BasicRequirement::Require(ResourceOrNonFungible::NonFungible(NonFungibleGlobalId::global_caller_badge(c)))));
+    let pk = |p: PackageAddress| AccessRule::Protected(CompositeRequirement::BasicRequirement(BasicRequirement::Require(ResourceOrNonFungible::NonFungible(NonFungibleGlobalId::package_of_direct_caller_badge(p)))));
+    vec![
+        gc(GlobalCaller::GlobalObject(w.k1.into())),
+        gc(GlobalCaller::GlobalObject(w.k2.into())),
+        gc(GlobalCaller::GlobalObject(w.c.into())),
+        gc(GlobalCaller::PackageBlueprint(BlueprintId::new(&w.pkg_p, BP_A))),
+        gc(GlobalCaller::PackageBlueprint(BlueprintId::new(&TRANSACTION_PROCESSOR_PACKAGE, TRANSACTION_PROCESSOR_BLUEPRINT))),
+        pk(w.pkg_p),
+        pk(w.pkg_q),
+        pk(TRANSACTION_PROCESSOR_PACKAGE),
+    ]
+}
+
+pub fn run(ctx: Ctx) -> ! {
+    let quick = ctx.quick();
+    let w = build_world(&|w| rep_rules(&alphabet(w)));
+    let alpha = alphabet(&w);
+    let all_rules = rules(&alpha, quick);
+    let reps = rep_rules(&alpha);
+    let callers = caller_rules(&w);
+    let placements = subsets(&ATOMS);
+    let t_sets = subsets(&[Atom::G5, Atom::Nf1, Atom::Sig]);
+    let q_sets = subsets(&[QAtom::G5, QAtom::Nf2]);
+
+    let mut work: Vec<Work> = vec![];
+    for i in 0..all_rules.len() {
+        work.push(Work::TxZone { entry: Entry::Role, rule: i, fn_pkg: None });
+        work.push(Work::TxZone { entry: Entry::Assert, rule: i, fn_pkg: None });
+    }
+    for i in 0..reps.len() {
+        work.push(Work::TxZone { entry: Entry::OwnerFallback, rule: i, fn_pkg: None });
+        work.push(Work::TxZone { entry: Entry::RoleList, rule: i, fn_pkg: None });
+        work.push(Work::TxZone { entry: Entry::Function, rule: i, fn_pkg: Some(i) });
+        work.push(Work::Chain { rule: i, caller_section: false });
+    }
+    for i in 0..callers.len() {
+        work.push(Work::Chain { rule: i, caller_section: true });
+    }
+
+    let replay_case = ctx.read_replay_case();
+    if let Some(case) = &replay_case {
+        // replay = re-run the work item recorded in the case
+        let idx = case.get("work").and_then(|x| x.as_u64()).unwrap_or(0) as usize;
+        work = vec![work.get(idx).cloned().unwrap_or_else(|| mc_core::machinery_error("replay: bad work index"))];
+    }
+    let work_indexed: Vec<(usize, Work)> = work.into_iter().enumerate().collect();
+
+    par_for(&ctx, &work_indexed, |(wi, item), l| {
+        let (mut sim, probe) = probe_sim_from(&w.snap);
+        match item {
+            Work::TxZone { entry, rule, fn_pkg } => {
+                let (section, rule) = match entry {
+                    Entry::Role => ("role:tx-zone", &all_rules[*rule]),
+                    Entry::Assert => ("assert:tx-zone", &all_rules[*rule]),
+                    Entry::OwnerFallback => ("owner-fallback", &reps[*rule]),
+                    Entry::RoleList => ("role-list", &reps[*rule]),
+                    Entry::Function => ("function", &reps[*rule]),
+                };
+                match entry {
+                    Entry::Role | Entry::RoleList => set_role_r(&w, &mut sim, &probe, rule),
+                    Entry::OwnerFallback => set_owner_rule(&w, &mut sim, &probe, rule),
+                    _ => {}
+                }
+                for p in &placements {
+                    let m = with_tx_proofs(&w, p);
+                    let m = match entry {
+                        Entry::Role => m.call_method(w.c, "guarded", manifest_args!(script_bytes(&[]))),
+                        Entry::RoleList => m.call_method(w.c, "guarded_rs", manifest_args!(script_bytes(&[]))),
+                        Entry::OwnerFallback => m.call_method(w.c, "guarded_t", manifest_args!(script_bytes(&[]))),
+                        Entry::Assert => m.call_function(w.pkg_p, BP_A, "run", manifest_args!(script_bytes(&[Op::AssertRule(rule.clone())]))),
+                        Entry::Function => m.call_function(w.fn_pkgs[fn_pkg.unwrap()], "ProbeF", "guarded_fn", manifest_args!(script_bytes(&[]))),
+                    }
+                    .build();
+                    // reference: the callee's zone is created by a global context change from the transaction processor
+                    let mut zones = Zones(vec![tx_zone(&w, p)]);
+                    let zc = zones.call(0, &tx_processor_caller(), true);
+                    let vis = zones.visible(zc);
+                    let got = match run_tx(&mut sim, &probe, m, signers(&w, p)) {
+                        Ok(r) => classify(&r, *entry == Entry::Assert),
+                        Err(pn) => Err(format!("panic: {pn}")),
+                    };
+                    judge(l, section, rule, &vis, got, || json!({"work": wi, "section": section, "rule": format!("{rule:?}"), "tx_zone": format!("{p:?}")}));
+                }
+            }
+            Work::Chain { rule, caller_section } => {
+                let (section, rule) = if *caller_section { ("caller", &callers[*rule]) } else { ("chain", &reps[*rule]) };
+                set_role_r(&w, &mut sim, &probe, rule);
+                let empty_t: Vec<Vec<Atom>> = vec![vec![]];
+                let empty_q: Vec<Vec<QAtom>> = vec![vec![]];
+                let (ts, qs) = if *caller_section { (&empty_t, &empty_q) } else { (&t_sets, &q_sets) };
+                for path in [Path::Direct, Path::ViaFn, Path::ViaK1, Path::ViaK1K2, Path::ViaK1Child] {
+                    for assert in [false, true] {
+                        if assert && path == Path::Direct {
+                            continue;
+                        }
+                        for t in ts {
+                            for q in qs {
+                                if !q.is_empty() && matches!(path, Path::Direct | Path::ViaFn) {
+                                    continue;
+                                }
+                                let (m, vis) = chain_case(&w, rule, path, assert, t, q);
+                                let got = match run_tx(&mut sim, &probe, m, signers(&w, t)) {
+                                    Ok(r) => classify(&r, assert),
+                                    Err(pn) => Err(format!("panic: {pn}")),
+                                };
+                                let sec = format!("{section}:{path:?}:{}", if assert { "assert" } else { "method" });
+                                judge(l, &sec, rule, &vis, got, || json!({"work": wi, "section": sec, "rule": format!("{rule:?}"), "tx_zone": format!("{t:?}"), "k1_zone": format!("{q:?}")}));
+                            }
+                        }
+                    }
+                }
+            }
+        }
+    });
+
+    // harness trouble (a transaction failing for a reason other than the authorization under test) is not a verdict
+    let classes = ctx.classes();
+    let other: u64 = classes.iter().filter(|(k, _)| k.ends_with(":other-failure")).map(|(_, n)| *n).sum();
+    if other > 0 && !ctx.has_violations() && replay_case.is_none() {
+        mc_core::machinery_error(&format!("C08: {other} transactions failed for a reason other than the authorization under test (see classes): {:?}", classes.iter().filter(|(k, _)| k.ends_with(":other-failure")).collect::<Vec<_>>()));
+    }
+    let nontrivial: u64 = classes.iter().filter(|(k, _)| k.ends_with(":authorized")).map(|(_, n)| *n).sum();
+    let mut cov = Map::new();
+    cov.insert("programs".into(), json!(all_rules.len() + reps.len() + callers.len()));
+    cov.insert("rules_primary".into(), json!(all_rules.len()));
+    cov.insert("rules_representative".into(), json!(reps.len()));
+    cov.insert("basic_requirements".into(), json!(alpha.basics.len()));
+    cov.insert("tx_zone_placements".into(), json!(placements.len()));
+    cov.insert("chain_paths".into(), json!(["Direct", "ViaFn", "ViaK1", "ViaK1K2(barrier)", "ViaK1Child(owned)"]));
+    ctx.finish(
+        Level::Exploration,
+        "every access rule of the alphabet × every subset of the proof set in the transaction auth zone × entry point (role-protected method, assert_access_rule; representative rules: owner fallback, role list, function auth, zone chains, caller badges), each executed as a real transaction and compared with the reference evaluator; non-trivial = cases in which a Protected rule was evaluated to 'authorized'",
+        nontrivial,
+        true,
+        cov,
+        &[
+            "AmountOf is per single proof (documented at the check site); cases reachable only by summing proofs are informational",
+            "count-of lists have distinct entries; empty all-of/any-of lists are not enumerated (statement silent)",
+            "Require(resource) is not matched against implicit (signature/caller) badges of that resource: not enumerated",
+            "frame-owned (not yet globalized, not stored) callers are not enumerated",
+        ],
+    )
 }
